@@ -2,6 +2,7 @@
 import json
 import os
 from lib import *
+import sem
 import common
 
 LEVEL = "other"
@@ -115,31 +116,31 @@ def rule_borrow(F, R, rule="R14-borrow", scope=None):
     return n
 
 
-def _store_guarded(h, push_method, recv_names, R, rule, fn, what):
-    """every `<recv>.<push_method>(..)` in the visitor body comes after an `if value_type != elem_type {return Err}`
-    in the same loop body block"""
-    body = h["body"]
+def _store_guarded(E, h, push_method, R, rule, fn, what):
+    """every `<container of LhsValue>.<push_method>(.., elem)` in the visitor body sits on a path where the element's own
+    type (elem.get_type()) is known to equal the container's declared element type (self.0.value_type())"""
+    S = sem.Sem(E, h)
     n = 0
-    for blk in exprs(body, "Block"):
-        stmts = blk.get("stmts", [])
-        for i, st in enumerate(stmts):
-            pushes = [c for c in exprs(st, "MethodCall", into_closures=False) if c["m"] == push_method and local_name(chain(c)[0]) in recv_names
-                      and strip(c["recv"]).get("k") == "Path"]
-            # only direct statements of this block
-            direct = [c for c in pushes if st.get("k") in ("SSemi", "SExpr") and strip(st["e"]) is c]
-            for c in direct:
-                n += 1
-                guarded = False
-                for prev in stmts[:i]:
-                    for iff in exprs(prev, "If", into_closures=False):
-                        cond = strip(iff["cond"])
-                        if cond.get("k") == "Binary" and cond["op"] == "Ne" and explicit_err_returns(iff["then"]):
-                            names = {local_name(cond["l"]), local_name(cond["r"])}
-                            tys = {cond["l"].get("ty"), cond["r"].get("ty")}
-                            gt = [x for x in exprs(cond, "MethodCall") if x["m"] == "get_type"]
-                            if ("value_type" in names) and (tys == {"types::Type"}) and (gt or "elem_type" in names):
-                                guarded = True
-                R.check(guarded, rule, fn, "%s stored only after `type != value_type -> Err`" % what, where=c["sp"])
+    for x in S.sites():
+        c = x.node
+        if c.get("k") != "MethodCall" or c["m"] != push_method or x.frame is not S.root:
+            continue
+        rt = norm(strip(c["recv"]).get("ty", "") + " " + strip(c["recv"]).get("aty", ""))
+        if "types::LhsValue" not in rt or not ("Vec<" in rt or "BTreeMap<" in rt):
+            continue
+        n += 1
+        elem = c["args"][-1]
+        eb = sem.root_local(S, elem, x.frame)
+        guarded = False
+        for op, l, r, fr, certain in sem.weak_cmps(x.pc):
+            if not certain or op != "Eq":
+                continue
+            for a_, b_ in ((l, r), (r, l)):
+                declared = sem.is_method(S.resolve(a_, fr).node, "value_type")
+                gt = sem.is_method(S.resolve(b_, fr).node, "get_type")
+                if declared is not None and gt is not None and eb is not None and sem.root_local(S, gt, S.resolve(b_, fr).frame) is eb:
+                    guarded = True
+        R.check(guarded, rule, fn, "%s stored only after `type != value_type -> Err`" % what, where=c["sp"])
     return n
 
 
@@ -163,21 +164,22 @@ def rule_store(F, R, rule="R14-store"):
             par = [m for m in exprs(h["body"], "MethodCall") if m["m"] == "map_err" and strip(m["recv"]) is c]
             R.check(len(par) == 1, rule, fn, "setter error becomes a deserialization error", where=c["sp"])
     n = 0
-    for rx, meth, recv, what in ((r"ArrayVisitor as serde_core::de::Visitor>::visit_seq$", "push", {"vec"}, "array element"),
-                                 (r"::MapVisitor as serde_core::de::Visitor>::visit_map$", "insert", {"map"}, "map value"),
-                                 (r"::MapVisitor as serde_core::de::Visitor>::visit_seq$", "insert", {"map"}, "map value")):
+    for rx, meth, what in ((r"ArrayVisitor as serde_core::de::Visitor>::visit_seq$", "push", "array element"),
+                           (r"::MapVisitor as serde_core::de::Visitor>::visit_map$", "insert", "map value"),
+                           (r"::MapVisitor as serde_core::de::Visitor>::visit_seq$", "insert", "map value")):
         hs = E.hirs(rx)
         if len(hs) != 1:
             R.cannot(rule, rx, "anchor not found")
             continue
-        k = _store_guarded(hs[0], meth, recv, R, rule, norm(hs[0]["path"]), what)
+        k = _store_guarded(E, hs[0], meth, R, rule, norm(hs[0]["path"]), what)
         R.floor(rule, "stores in " + rx, k, 1)
         n += k
     # elements are deserialized with the container's own element type
     for rx in (r"ArrayVisitor as serde_core::de::Visitor>::visit_seq$", r"::MapVisitor as serde_core::de::Visitor>::visit_map$"):
         for h in E.hirs(rx):
             seeds = [c for c in exprs(h["body"], "Call") if norm(c.get("callee", "")) == "types::LhsValueSeed"]
-            good = seeds and all(local_name(c["args"][0]) == "value_type" for c in seeds)
+            Sx = sem.Sem(E, h, inline=False)
+            good = seeds and all(sem.is_method(Sx.resolve(c["args"][0], Sx.root).node, "value_type") is not None for c in seeds)
             R.check(bool(good), rule, norm(h["path"]), "elements deserialized with the declared element type", where=h["span"])
 
 
